@@ -80,6 +80,7 @@ func (x *Exec) callValue(st *State, fr *Frame, fnv Value, args []Value, call *ss
 	// a value of a named function type: a contract keyed by the type applies
 	if n, ok := fnv.T.(*types.Named); ok {
 		key := qualName(n)
+		x.callAsserts(st, fr, key, args, paramNames(sig, nil)[1:], pos)
 		if c := x.contractOf(key); c != nil {
 			return x.applyContract(st, fr, c, key, sig, nil, args, pos)
 		}
@@ -367,7 +368,8 @@ func (x *Exec) havocElems(st *State, s Value, et types.Type) {
 	old := mkSelect(h, s.Rid)
 	q := fmt.Sprintf("(forall ((i!h Int)) (=> (or (< i!h %s) (>= i!h %s)) (= (select %s i!h) (select %s i!h))))", s.Off, mkAdd(s.Off, s.Len), na, old)
 	st.assume(q)
-	x.setHeap(st, name, mkIte(mkEq(s.Rid, "0"), h, mkStore(h, s.Rid, na)))
+	// (a nil slice has length 0: na then equals the old contents of region 0)
+	x.setHeap(st, name, mkStore(h, s.Rid, na))
 }
 
 // ---------------------------------------------------------------------------
